@@ -422,6 +422,16 @@ func (p *Peer) Deny(c cid.Cid) {
 	p.w.mu.Unlock()
 }
 
+// DropBlock removes a block from the peer's store and returns it: until somebody puts it back, a read of it waits
+// (as for a block no connected peer holds) for as long as its context lives.
+func (p *Peer) DropBlock(c cid.Cid) ([]byte, bool) {
+	p.w.mu.Lock()
+	defer p.w.mu.Unlock()
+	data, ok := p.blocks[bkey(c)]
+	delete(p.blocks, bkey(c))
+	return data, ok
+}
+
 // Allow undoes Deny.
 func (p *Peer) Allow(c cid.Cid) {
 	p.w.mu.Lock()
